@@ -558,6 +558,9 @@ impl Wide {
 /// `stwide-run --seed S --runs N --out trace.ndjson`: generate and execute in this process; a batch
 /// that dies (abort, stack overflow, hang killed by the driver) is detected by the parent (`stwide`).
 pub fn wide_child(args: &[String]) -> i32 {
+    if arg_u64(args, "--opmatrix", 0) == 1 {
+        return opm_child(args);
+    }
     let seed = arg_u64(args, "--seed", 1);
     let from = arg_u64(args, "--from", 0) as usize;
     let to = arg_u64(args, "--to", 100) as usize;
@@ -605,6 +608,102 @@ pub fn wide_child(args: &[String]) -> i32 {
     0
 }
 
+// ------------------------------------------------------------------------------------------
+// Operator x integer type x boundary operand matrix at full width (C01, C02).  The 64-bit types do
+// not fit TLC's 32-bit integers, so here the expected outcome is computed in the harness with exact
+// (i128) arithmetic: value = the mathematical result, Overflow iff it leaves the type, truncating
+// division, remainder with the sign of the dividend, DivisionByZero / ModuloByZero.
+const OPM_TYPES: [(&str, i128, i128); 8] = [
+    ("SINT", -128, 127), ("INT", -32768, 32767), ("DINT", -2147483648, 2147483647),
+    ("LINT", i64::MIN as i128, i64::MAX as i128),
+    ("USINT", 0, 255), ("UINT", 0, 65535), ("UDINT", 0, 4294967295), ("ULINT", 0, u64::MAX as i128),
+];
+const OPM_OPS: [(&str, &str); 12] = [
+    ("add", "a + b"), ("sub", "a - b"), ("mul", "a * b"), ("div", "a / b"), ("mod", "a MOD b"),
+    ("neg", "-a"), ("abs", "ABS(a)"),
+    ("fadd", "ADD(a, b)"), ("fsub", "SUB(a, b)"), ("fmul", "MUL(a, b)"), ("fdiv", "DIV(a, b)"), ("fmod", "MOD(a, b)"),
+];
+fn opm_operands(lo: i128, hi: i128) -> Vec<i128> {
+    let mut v = vec![lo, lo + 1, lo + 2, hi - 2, hi - 1, hi, 0, 1, 2, 3, hi / 2, hi / 2 + 1, lo / 2];
+    if lo < 0 { v.extend([-1, -2, -3, lo / 2 - 1]); }
+    v.sort();
+    v.dedup();
+    v
+}
+fn opm_value(t: &str, x: i128) -> Value {
+    match t {
+        "SINT" => Value::SInt(x as i8), "INT" => Value::Int(x as i16), "DINT" => Value::DInt(x as i32), "LINT" => Value::LInt(x as i64),
+        "USINT" => Value::USInt(x as u8), "UINT" => Value::UInt(x as u16), "UDINT" => Value::UDInt(x as u32), _ => Value::ULInt(x as u64),
+    }
+}
+fn opm_num(v: &Value) -> Option<(String, i128)> {
+    Some(match v {
+        Value::SInt(x) => ("SINT".into(), *x as i128), Value::Int(x) => ("INT".into(), *x as i128), Value::DInt(x) => ("DINT".into(), *x as i128), Value::LInt(x) => ("LINT".into(), *x as i128),
+        Value::USInt(x) => ("USINT".into(), *x as i128), Value::UInt(x) => ("UINT".into(), *x as i128), Value::UDInt(x) => ("UDINT".into(), *x as i128), Value::ULInt(x) => ("ULINT".into(), *x as i128),
+        _ => return None,
+    })
+}
+/// (outcome, value): the reference result of one operator application in type [lo, hi]
+fn opm_expected(op: &str, a: i128, b: i128, lo: i128, hi: i128) -> (&'static str, i128) {
+    let r = match op.trim_start_matches('f') {
+        "add" => a + b,
+        "sub" => a - b,
+        "mul" => match a.checked_mul(b) { Some(r) => r, None => return ("Overflow", 0) },
+        "div" => { if b == 0 { return ("DivisionByZero", 0); } a / b }
+        "mod" => { if b == 0 { return ("ModuloByZero", 0); } a % b }
+        "neg" => -a,
+        _ => a.abs(),
+    };
+    if r < lo || r > hi { ("Overflow", 0) } else { ("ok", r) }
+}
+/// `stwide-child --opmatrix 1 --from K --to N`: case K.. of the matrix, one line per case
+fn opm_cases() -> Vec<(usize, usize, i128, i128)> {
+    let mut v = Vec::new();
+    for (ti, (_, lo, hi)) in OPM_TYPES.iter().enumerate() {
+        let xs = opm_operands(*lo, *hi);
+        for (oi, (op, _)) in OPM_OPS.iter().enumerate() {
+            let unary = *op == "neg" || *op == "abs";
+            if unary && *lo == 0 { continue; }
+            for &a in &xs {
+                if unary { v.push((ti, oi, a, 0)); } else { for &b in &xs { v.push((ti, oi, a, b)); } }
+            }
+        }
+    }
+    v
+}
+fn opm_child(args: &[String]) -> i32 {
+    let from = arg_u64(args, "--from", 0) as usize;
+    let cases = opm_cases();
+    let to = (arg_u64(args, "--to", cases.len() as u64) as usize).min(cases.len());
+    std::panic::set_hook(Box::new(|_| {}));
+    let mut cur: Option<(usize, usize, TestHarness)> = None;
+    for k in from..to {
+        let (ti, oi, a, b) = cases[k];
+        let (t, lo, hi) = OPM_TYPES[ti];
+        let (op, text) = OPM_OPS[oi];
+        println!("BEGIN {k}");
+        if !matches!(&cur, Some((x, y, _)) if *x == ti && *y == oi) {
+            let src = format!("PROGRAM P\nVAR\n  a : {t};\n  b : {t};\n  q : {t};\nEND_VAR\nq := {text};\nEND_PROGRAM\n");
+            cur = match std::panic::catch_unwind(|| TestHarness::from_source(&src)) {
+                Ok(Ok(h)) => Some((ti, oi, h)),
+                _ => None,
+            };
+        }
+        let Some((_, _, h)) = cur.as_mut() else { println!("END {k} rejected"); continue; };
+        h.set_input("a", opm_value(t, a));
+        h.set_input("b", opm_value(t, b));
+        h.set_input("q", opm_value(t, 0));
+        let r = std::panic::catch_unwind(std::panic::AssertUnwindSafe(|| h.cycle()));
+        let res = match &r { Err(_) => "Panic".to_string(), Ok(c) => if c.errors.is_empty() { "ok".into() } else { format!("{:?}", c.errors[0]).split(|c: char| !c.is_alphanumeric()).next().unwrap().to_string() } };
+        let frames = h.runtime().storage().frames().len();
+        let (gt, gv) = h.get_output("q").as_ref().and_then(opm_num).unwrap_or(("NONE".into(), 0));
+        let (er, ev) = opm_expected(op, a, b, lo, hi);
+        println!("END {k} op {t} {op} {a} {b} {res} {gt} {gv} {frames} {er} {ev}");
+        if res != "ok" { cur = None; } // a faulted runtime is not reused
+    }
+    0
+}
+
 pub fn wide(args: &[String]) -> i32 {
     let seed = arg_u64(args, "--seed", 1);
     let runs = arg_u64(args, "--runs", 500) as usize;
@@ -613,6 +712,36 @@ pub fn wide(args: &[String]) -> i32 {
     let mut next = 0usize;
     let (mut accepted, mut rejected) = (0usize, 0usize);
     o.line(&json!({"a": "Reset", "wide": true}));
+    // the full-width operator matrix (every case in quick and thorough; `--opslice K --opof N` thins it)
+    let ncases = opm_cases().len();
+    let (opslice, opof) = (arg_u64(args, "--opslice", 0) as usize, arg_u64(args, "--opof", 1) as usize);
+    let mut onext = 0usize;
+    while onext < ncases && opof != 0 {
+        let exe = std::env::current_exe().unwrap();
+        let out = std::process::Command::new(exe).args(["stwide-child", "--opmatrix", "1", "--from", &onext.to_string()]).output().unwrap();
+        let text = String::from_utf8_lossy(&out.stdout).to_string();
+        let mut began: Option<usize> = None;
+        for line in text.lines() {
+            let p: Vec<&str> = line.split(' ').collect();
+            if p[0] == "BEGIN" { began = p[1].parse().ok(); }
+            else if p[0] == "END" {
+                let k: usize = p[1].parse().unwrap();
+                if p[2] == "op" && k % opof == opslice % opof {
+                    o.line(&json!({"a": "OpCase", "k": k, "t": p[3], "op": p[4], "x": p[5], "y": p[6], "res": p[7], "gotT": p[8], "got": p[9],
+                                   "frames": p[10].parse::<i64>().unwrap_or(-1), "expRes": p[11], "exp": p[12]}));
+                } else if p[2] == "rejected" {
+                    o.line(&json!({"a": "OpCase", "k": k, "res": "rejected"}));
+                }
+                onext = k + 1; began = None;
+            }
+        }
+        if let Some(k) = began {
+            let c = opm_cases()[k];
+            o.line(&json!({"a": "OpCase", "k": k, "t": OPM_TYPES[c.0].0, "op": OPM_OPS[c.1].0, "x": c.2.to_string(), "y": c.3.to_string(), "res": "Abort",
+                           "gotT": "NONE", "got": "0", "frames": -1, "expRes": "", "exp": "0"}));
+            onext = k + 1;
+        } else if text.lines().count() == 0 { break; }
+    }
     while next < runs {
         let exe = std::env::current_exe().unwrap();
         let out = std::process::Command::new(exe).args(["stwide-child", "--seed", &seed.to_string(), "--from", &next.to_string(), "--to", &runs.to_string(), "--cur", &cur]).output().unwrap();
